@@ -188,7 +188,7 @@ MD_OPS = [
     ("remove", (0,), True), ("remove", (1,), True), ("remove", (0, 2), True), ("remove", (0,), False), ("remove", (2,), False),
     ("reset",),
     ("write_read", False), ("write_read", True),
-    ("fn_remove", (1,), True), ("fn_remove", (1,), False),
+    ("fn_remove", (1,), True), ("fn_remove", (1,), False), ("fn_remove", (2,), True, "array"),
     ("fn_sort", False), ("fn_sort", True),
 ]
 
@@ -282,7 +282,9 @@ class MdocSpec(BFSSpec):
             model["imgs"] = [(d, False) for d, _ in model["imgs"]]
             if kind == "fn_remove":
                 site = "mdoc.remove_images"
-                m = obs.lib(site, mdoc.remove_images, p, list(op[1]), numbered_from_1=op[2], output_file=q)
+                # the index subset as a list or (4th field "array") as the caller's own numpy array (obs.lib checks it comes back untouched)
+                idx_arg = np.array(op[1]) if len(op) > 3 and op[3] == "array" else list(op[1])
+                m = obs.lib(site, mdoc.remove_images, p, idx_arg, numbered_from_1=op[2], output_file=q)
                 i0 = op[1][0] - (1 if op[2] else 0)
                 d, _ = model["imgs"][i0]
                 model["imgs"][i0] = (d, True)
